@@ -738,7 +738,7 @@ def rule_r4(chk) -> None:
         me = Record("TaskJournal", _run_id="r", _crud=Record("JournalCrud"), _entries=None, _replay_index=0)
 
         def call(name, **kw):
-            return _AInterp({}, hooks).call_function(meths[name], {"self": me, **kw})
+            return _AInterp({}, hooks).with_class("TaskJournal", tj).call_function(meths[name], {"self": me, **kw})
 
         if call("is_replaying"):
             return "is_replaying() is true before load()"
@@ -851,6 +851,8 @@ def rule_r5(chk) -> None:
 def run(chk) -> None:
     from ._engine import engine_view
     chk.extra["helpers_inlined"] = engine_view(chk.repo)
+    from ._engine import inlined_view
+    chk.extra["helpers_inlined"] += inlined_view(chk.repo, RT, __file__)
     rule_r1(chk)
     rule_r2(chk)
     rule_r3(chk)
